@@ -65,6 +65,7 @@ pub fn dump_all<'tcx>(tcx: TyCtxt<'tcx>, krate: &str, out: &mut Out) {
     let mut queue: VecDeque<(DefId, GenericArgsRef<'tcx>, usize)> = VecDeque::new();
     let mut seen: HashSet<(DefId, GenericArgsRef<'tcx>)> = HashSet::new();
     let mut nrows = 0;
+    let mut seen_consts: HashSet<(DefId, GenericArgsRef<'tcx>)> = HashSet::new();
 
     for ldid in tcx.hir_body_owners() {
         let did = ldid.to_def_id();
@@ -94,6 +95,15 @@ pub fn dump_all<'tcx>(tcx: TyCtxt<'tcx>, krate: &str, out: &mut Out) {
             }
             let mut methods = Vec::new();
             if !impl_ty.has_non_region_param() {
+                // the constructor itself (it references F::VTABLE, whose closures call the
+                // trait methods with their own generic parameters instantiated)
+                let cargs = tr.node_args(match &call.kind { hir::ExprKind::Call(f, _) => f.hir_id, _ => call.hir_id });
+                if !cargs.has_non_region_param() {
+                    methods.push(J::Obj(vec![("name", s("<ctor>")), ("def", s(def_path(tcx, *ctor))), ("inst", s(inst_key(tcx, *ctor, cargs)))]));
+                    if seen.insert((*ctor, cargs)) {
+                        queue.push_back((*ctor, cargs, 0));
+                    }
+                }
                 for trd in &traits {
                     for it in tcx.associated_items(*trd).in_definition_order() {
                         if !it.is_fn() {
@@ -152,7 +162,7 @@ pub fn dump_all<'tcx>(tcx: TyCtxt<'tcx>, krate: &str, out: &mut Out) {
             continue;
         }
         let body = tcx.optimized_mir(did);
-        let mut enc = Enc { tcx, body, env, subst: Some(args), callees: Vec::new() };
+        let mut enc = Enc { tcx, body, env, subst: Some(args), callees: Vec::new(), consts: Vec::new(), depth: 0 };
         let mut o = fn_header(tcx, krate, did);
         o.insert(0, ("t", s("inst")));
         o.insert(1, ("key", s(inst_key(tcx, did, args))));
@@ -172,6 +182,54 @@ pub fn dump_all<'tcx>(tcx: TyCtxt<'tcx>, krate: &str, out: &mut Out) {
             if depth + 1 <= max_depth && seen.insert((cd, ca)) {
                 queue.push_back((cd, ca, depth + 1));
             }
+        }
+        // referenced assoc consts: enter their bodies (and promoteds) to find closures (vtables)
+        let consts = std::mem::take(&mut enc.consts);
+        for (cd, ca) in consts {
+            if !is_ws(tcx, cd) || ca.has_non_region_param() {
+                continue;
+            }
+            let (rd, ra) = match tcx.def_kind(cd) {
+                DefKind::AssocConst { .. } => match Instance::try_resolve(tcx, env, cd, ca) {
+                    Ok(Some(i)) => (i.def_id(), i.args),
+                    _ => continue,
+                },
+                DefKind::Const { .. } => (cd, ca),
+                _ => continue,
+            };
+            if !is_ws(tcx, rd) || !seen_consts.insert((rd, ra)) {
+                // still link it
+                cal.push(s(format!("const:{}", inst_key(tcx, rd, ra))));
+                continue;
+            }
+            cal.push(s(format!("const:{}", inst_key(tcx, rd, ra))));
+            let mut bodies: Vec<&rustc_middle::mir::Body<'tcx>> = Vec::new();
+            if tcx.is_mir_available(rd) || rd.is_local() {
+                bodies.push(tcx.mir_for_ctfe(rd));
+                for b in tcx.promoted_mir(rd).iter() {
+                    bodies.push(b);
+                }
+            }
+            let mut ccal = Vec::new();
+            for b in bodies {
+                let mut e2 = Enc { tcx, body: b, env, subst: Some(ra), callees: Vec::new(), consts: Vec::new(), depth: 0 };
+                let _ = e2.blocks();
+                for (d2, a2) in std::mem::take(&mut e2.callees) {
+                    if !is_ws(tcx, d2) {
+                        continue;
+                    }
+                    ccal.push(s(inst_key(tcx, d2, a2)));
+                    if depth + 1 <= max_depth && seen.insert((d2, a2)) {
+                        queue.push_back((d2, a2, depth + 1));
+                    }
+                }
+            }
+            out.line(&J::Obj(vec![
+                ("t", s("instconst")),
+                ("key", s(format!("const:{}", inst_key(tcx, rd, ra)))),
+                ("krate", s(krate)),
+                ("callees", J::Arr(ccal)),
+            ]).to_string());
         }
         o.push(("callees", J::Arr(cal)));
         out.line(&J::Obj(o).to_string());
